@@ -222,15 +222,10 @@ impl Model<Asn<Unresolved>> {
         delimiter: char,
     ) -> Result<String, ErrorKind> {
         iter.next_separator_eq_or_err(delimiter)?;
-        let token = iter.next_or_err()?;
 
-        let first_text = token.text().unwrap_or_default();
         let mut string = String::from(delimiter);
-        string.push_str(first_text);
-        let mut prev_loc = Location::at(
-            token.location().line(),
-            token.location().column() + first_text.chars().count(),
-        );
+        // the content starts at the first token, which may already be the closing delimiter
+        let mut prev_loc = iter.peek_or_err()?.location();
 
         loop {
             match iter.next_or_err()? {
